@@ -92,7 +92,7 @@ Def g_def = Def::Check;
 std::vector<std::string> g_scope;
 Profile g_profile = Profile::Double;
 int g_max_decisions = 400;
-double g_cap_first = 10.0, g_cap_portfolio = 60.0;
+double g_cap_first = 10.0, g_cap_portfolio = 60.0, g_cap_feas = 3.0;
 bool g_concrete = false;
 std::map<std::string, double> g_model;
 std::string g_tmpdir;
@@ -604,7 +604,7 @@ void parse_cli_output(const std::string& out, SolveResult& r, const std::vector<
     (void) syms;
 }
 
-SolveResult solve(const std::vector<z3::expr>& cons, bool want_model)
+SolveResult solve(const std::vector<z3::expr>& cons, bool want_model, bool feasibility_only = false)
 {
     SolveResult r;
     double t0 = now();
@@ -685,7 +685,7 @@ SolveResult solve(const std::vector<z3::expr>& cons, bool want_model)
         getv += "))\n";
     }
     auto cit = g_query_cache.find(body);
-    if (cit != g_query_cache.end() && (!want_model || cit->second.first != "sat"))
+    if (cit != g_query_cache.end() && (!want_model || cit->second.first != "sat") && (feasibility_only || cit->second.first != "unknown" || true))
     {
         P->cache_hits++;
         r.verdict = cit->second.first;
@@ -711,6 +711,13 @@ SolveResult solve(const std::vector<z3::expr>& cons, bool want_model)
                         std::string("timeout -k 1 ") + capbuf + " z3-new -memory:6000 " + file + " 2>&1", g_cap_portfolio});
     attempts.push_back({"cvc5-1.0.3", "(set-logic QF_NRA)\n(set-option :produce-models true)\n",
                         std::string("timeout -k 1 ") + capbuf + " cvc5 " + file + " 2>&1", g_cap_portfolio});
+    if (feasibility_only)
+    {
+        // branch-feasibility questions get one short attempt; "unknown" means both sides are explored
+        snprintf(capbuf, sizeof capbuf, "%d", (int) std::ceil(g_cap_feas));
+        attempts.clear();
+        attempts.push_back({"z3-4.8.12", "", std::string("timeout -k 1 ") + capbuf + " z3 -memory:6000 " + file + " 2>&1", g_cap_feas});
+    }
     for (const Attempt& a : attempts)
     {
         if (a.cap <= 0)
@@ -737,7 +744,8 @@ SolveResult solve(const std::vector<z3::expr>& cons, bool want_model)
             f << "(set-option :pp.decimal true)\n" << body << getv;
         }
     }
-    g_query_cache[body] = {r.verdict, ""};
+    if (r.verdict != "unknown" || !feasibility_only)
+        g_query_cache[body] = {r.verdict, ""};
     r.secs = now() - t0;
     P->solver_secs += r.secs;
     return r;
@@ -1245,13 +1253,13 @@ bool decide(const z3::expr& cond)
         P->decisions.push_back({out, true, h});
         return out;
     }
-    SolveResult rt = solve(with_slice(c), false);
+    SolveResult rt = solve(with_slice(c), false, true);
     bool feas_t = rt.verdict != "unsat", feas_f = true;
     if (rt.verdict == "unknown")
         P->n_unknown_feas++;
     if (feas_t)
     {
-        SolveResult rf = solve(with_slice(!c), false);
+        SolveResult rf = solve(with_slice(!c), false, true);
         feas_f = rf.verdict != "unsat";
         if (rf.verdict == "unknown")
             P->n_unknown_feas++;
@@ -1285,7 +1293,7 @@ void assume(const z3::expr& cond, const std::string& why)
     if (c.is_false())
         throw Infeasible();
     // only new (non-replayed) assumptions need a satisfiability check; replays are deterministic anyway
-    SolveResult r = solve(with_slice(c), false);
+    SolveResult r = solve(with_slice(c), false, true);
     if (r.verdict == "unsat")
         throw Infeasible();
     if (r.verdict == "unknown")
@@ -1888,6 +1896,8 @@ int run_main(int argc, char** argv, const std::vector<Case>& all_cases)
             g_cap_first = atof(argv[++i]);
             g_cap_portfolio = atof(argv[++i]);
         }
+        else if (a == "--feas-cap" && i + 1 < argc)
+            g_cap_feas = atof(argv[++i]);
         else if (a == "--profile" && i + 1 < argc)
         {
             std::string p = argv[++i];
